@@ -127,20 +127,20 @@ func (p *pkt) bytes() []byte {
 
 // caseSpec is everything needed to re-run one case.
 type caseSpec struct {
-	Codec    string `json:"codec"` // H264 | H265
-	Audio    bool   `json:"audio"`
-	CacheGop bool   `json:"cache_gop"`
-	NoSprop  bool   `json:"sdp_without_parameter_sets,omitempty"`
-	BadAac   bool   `json:"sdp_aac_config_undecodable,omitempty"` // config=00: the TS AAC packetizer has no ADTS template
-	SDP      string `json:"sdp,omitempty"` // overrides the built SDP (FuzzSdp)
-	Class    string `json:"class"`
-	Prefix   []pkt  `json:"prefix"`
-	Pos      int    `json:"hostile_before_prefix_index"`
-	Hostile  []pkt  `json:"hostile"`
-	ProbeTS  uint32 `json:"probe_first_video_timestamp"`
-	ProbeK   int    `json:"probe_access_units"`
-	HLSJump  string `json:"presentation_timeline_jump,omitempty"`
-	HLSWaitMs int   `json:"hls_wait_ms,omitempty"` // 0 = the default bound
+	Codec     string `json:"codec"` // H264 | H265
+	Audio     bool   `json:"audio"`
+	CacheGop  bool   `json:"cache_gop"`
+	NoSprop   bool   `json:"sdp_without_parameter_sets,omitempty"`
+	BadAac    bool   `json:"sdp_aac_config_undecodable,omitempty"` // config=00: the TS AAC packetizer has no ADTS template
+	SDP       string `json:"sdp,omitempty"`                        // overrides the built SDP (FuzzSdp)
+	Class     string `json:"class"`
+	Prefix    []pkt  `json:"prefix"`
+	Pos       int    `json:"hostile_before_prefix_index"`
+	Hostile   []pkt  `json:"hostile"`
+	ProbeTS   uint32 `json:"probe_first_video_timestamp"`
+	ProbeK    int    `json:"probe_access_units"`
+	HLSJump   string `json:"presentation_timeline_jump,omitempty"`
+	HLSWaitMs int    `json:"hls_wait_ms,omitempty"` // 0 = the default bound
 	// SettleMs lets the converter goroutines work off the hostile packets before
 	// the next packet is published (at most this long; ends early once a converter
 	// has logged a recovered panic). It only varies the schedule, it is no oracle.
@@ -150,7 +150,6 @@ type caseSpec struct {
 // sigHLSJump: listed finding — the HLS segmenter cannot follow a jump of the
 // presentation timeline (see TestWitnessHlsTimelineJump).
 const sigHLSJump = "hls-stalls-after-presentation-time-jump"
-
 
 func (c *caseSpec) codec() esgen.Codec {
 	if c.Codec == "H265" {
@@ -447,19 +446,19 @@ func (r *rig) hlsHas(tag []byte) bool {
 // ---------------------------------------------------------------- running a case
 
 type result struct {
-	Reached   []bool   `json:"hostile_reached_stream"`
-	Escaped   *escaped `json:"escaped_panic,omitempty"`
-	Hang      string   `json:"hang,omitempty"`
-	RTPMiss   string   `json:"rtp_continuation,omitempty"`
-	FLVMiss   string   `json:"flv_continuation,omitempty"`
-	HLSMiss   string   `json:"hls_continuation,omitempty"`
-	HasFLV    bool     `json:"-"`
-	HasHLS    bool     `json:"-"`
-	HLSSkipped bool    `json:"hls_subcheck_skipped_listed_finding,omitempty"`
-	TwinRTP   []int    `json:"-"`
-	TwinFLV   []string `json:"-"`
-	TwinMiss  string   `json:"twin_continuation,omitempty"`
-	VideoMeta string   `json:"-"`
+	Reached    []bool   `json:"hostile_reached_stream"`
+	Escaped    *escaped `json:"escaped_panic,omitempty"`
+	Hang       string   `json:"hang,omitempty"`
+	RTPMiss    string   `json:"rtp_continuation,omitempty"`
+	FLVMiss    string   `json:"flv_continuation,omitempty"`
+	HLSMiss    string   `json:"hls_continuation,omitempty"`
+	HasFLV     bool     `json:"-"`
+	HasHLS     bool     `json:"-"`
+	HLSSkipped bool     `json:"hls_subcheck_skipped_listed_finding,omitempty"`
+	TwinRTP    []int    `json:"-"`
+	TwinFLV    []string `json:"-"`
+	TwinMiss   string   `json:"twin_continuation,omitempty"`
+	VideoMeta  string   `json:"-"`
 }
 
 func (res *result) failure() string {
